@@ -308,7 +308,7 @@ def main():
              {"name": "SerdeModel", "path": "/verif/coq/Seq", "serves_properties": ["C20"], "kind_free_text": "Coq model of src/serde.rs; harness/seqx differential run"},
          ],
          "checks": [], "not_applicable": [],
-         "notes": "All 20 properties are decided by Coq theorems plus a checked tie to /repo. Fix commits in /repo: 45d9e22 (D4), bae028e (D5), d277032 (D2), 505454e (D1), 83d9f2e (D8); see known_findings.txt and DESIGN.md."}
+         "notes": "All 20 properties are decided by Coq theorems plus a checked tie to /repo. Fix commits in /repo: 45d9e22 (D4), bae028e (D5), d277032 (D2), 505454e (D1), 83d9f2e (D8), 4a1a8a8 (D9); see known_findings.txt and DESIGN.md."}
     for p in props:
         pid = p["id"]
         if pid in CLAIMS:
